@@ -48,6 +48,7 @@ def A(slot):
 FRESH = ("arr?",)  # placeholder: an array allocated by the evaluation itself
 
 ADD, MUL, NULL = OP("AddOp"), OP("MulOp"), OP("NullOp")
+ELLIPSIS = ("py", "ellipsis", "Ellipsis")
 GETITEM0 = OP("GetitemOp", offset=0)
 
 _BOUND = re.compile(r"__BOUND_\d+$")
@@ -241,7 +242,7 @@ def slots_of(spec):
 
 
 class Recipe:
-    def __init__(self, name, kind, src, expect, alt=None, inputs=None, output=None):
+    def __init__(self, name, kind, src, expect, alt=None, inputs=None, output=None, holds=(), watch=False, group=None):
         self.name, self.kind, self.src = name, kind, src
         self.alts = [] if alt is None else [alt] if isinstance(alt, str) else list(alt)  # other spellings of src
         if not isinstance(expect, dict):
@@ -254,6 +255,9 @@ class Recipe:
             s |= slots_of(e)
         self.slots = tuple(sorted(s))
         self.interp_sensitive = kind == "term"
+        self.holds = tuple(holds)  # keys of objects a handle keeps alive besides its constructor arguments (.output)
+        self.watch = watch  # term recipes: also predict the liveness of the ops / domains it is built from
+        self.group = group or kind  # sub-pools pair recipes of one group
 
 
 def _lz(lazy_spec, eager_spec, reflect_spec=None, normalize_spec=None):
@@ -424,12 +428,34 @@ RECIPE_LIST = [
         ("Gaussian", A("s2"), A("s1"), (("gq", DOM("Reals[2]")),)),
         alt='Gaussian(s2, s1, (("gq", Reals[2]),))', inputs={"gq": "Reals[2]"}, output="Real",
     ),
+    # ---- plain-index slicing of a lazy term: a fresh parametrised GetsliceOp, distinctive input and result domains
+    # (ops.getslice -> find_domain); the op and both domains must be reclaimed with the term
+    Recipe(
+        "sl1", "term", 'Variable("vs", Reals[13, 11])[2:11:3]',
+        ("Unary", OP("GetsliceOp", index=(("slice", 2, 11, 3),)), V("vs", "Reals[13,11]")),
+        alt=[
+            'Unary(ops.GetsliceOp((slice(2, 11, 3),)), Variable("vs", Reals[13, 11]))',
+            'Unary(arg=Variable("vs", Reals[13, 11]), op=ops.GetsliceOp(slice(2, 11, 3)))',
+        ],
+        inputs={"vs": "Reals[13,11]"}, output="Reals[3,11]", holds=[DOM("Reals[3,11]")], watch=True, group="slicing",
+    ),
+    Recipe(
+        "sl2", "term", 'Variable("vs", Reals[13, 11])[..., 0]',
+        ("Unary", OP("GetsliceOp", index=(ELLIPSIS, 0)), V("vs", "Reals[13,11]")),
+        inputs={"vs": "Reals[13,11]"}, output="Reals[13]", holds=[DOM("Reals[13]")], watch=True, group="slicing",
+    ),
+    Recipe(
+        "sl3", "term", 'Variable("vs", Reals[13, 11])[None]',
+        ("Unary", OP("GetsliceOp", index=(None,)), V("vs", "Reals[13,11]")),
+        inputs={"vs": "Reals[13,11]"}, output="Reals[1,13,11]", holds=[DOM("Reals[1,13,11]")], watch=True, group="slicing",
+    ),
     # ---- domains ---------------------------------------------------------------------------------------
     Recipe("dB7", "dom", "Bint[7]", DOM("Bint[7]")),
     Recipe("dB75", "dom", "Bint[7, 5]", DOM("Bint[7,5]")),
     Recipe("dR5", "dom", "Reals[5]", DOM("Reals[5]"), alt='Array["real", (5,)]'),
     Recipe("dR7", "dom", "Reals[7]", DOM("Reals[7]")),
     Recipe("dR57", "dom", "Reals[5, 7]", DOM("Reals[5,7]"), alt='Array["real", (5, 7)]'),
+    Recipe("dR1311", "dom", "Reals[13, 11]", DOM("Reals[13,11]")),
     Recipe("dProd", "dom", "Product[Bint[7], Reals[5]]", ("Product", (DOM("Bint[7]"), DOM("Reals[5]")))),
     Recipe("dProd2", "dom", "Product[Bint[7], Reals[7]]", ("Product", (DOM("Bint[7]"), DOM("Reals[7]")))),
     # ---- parametrised ops ------------------------------------------------------------------------------
@@ -476,6 +502,8 @@ RECIPE_LIST = [
     Recipe("oW5", "op", "ops.WrappedTransformOp(tq.fwd)", OP("WrappedTransformOp", fn=("method", A("tq"), "fwd"), validate_args=True),
            alt="ops.WrappedTransformOp(fn=tq.fwd)"),
     Recipe("oW6", "op", "ops.WrappedTransformOp(tq, validate_args=False)", OP("WrappedTransformOp", fn=A("tq"), validate_args=False)),
+    Recipe("oSlS", "op", "ops.GetsliceOp((slice(2, 11, 3),))", OP("GetsliceOp", index=(("slice", 2, 11, 3),)),
+           alt="ops.GetsliceOp(slice(2, 11, 3))"),
     Recipe("oSl2", "op", "ops.GetsliceOp((slice(0, 7), 5))", OP("GetsliceOp", index=(("slice", 0, 7, None), 5))),
     # ---- parametrised term types -----------------------------------------------------------------------
     Recipe("tN1", "type", "Number[complex, bytes]", ("type", "Number", ("complex", "bytes"))),
@@ -500,9 +528,10 @@ def strip_gens(key):
 
 PREDICTED_NONTERM_KEYS = set()
 for _r in RECIPE_LIST:
-    if _r.kind != "term":
+    if _r.kind != "term" or _r.watch:
         for _e in _r.expect.values():
-            PREDICTED_NONTERM_KEYS.update(nodes(_e))
+            PREDICTED_NONTERM_KEYS.update(n for n in nodes(_e) if n[0] not in FUNSOR_HEADS)
+        PREDICTED_NONTERM_KEYS.update(_r.holds)
 
 
 def liveness_predicted(key):
@@ -539,9 +568,10 @@ def expected_key(ms, r):
 def reachable(ms):
     """Keys of all objects that a held handle keeps alive (the handle itself and everything nested in it)."""
     out = set()
-    for st in ms.status.values():
+    for r, st in ms.status.items():
         if st[0] == "H":
             out.update(nodes(st[1]))
+            out.update(RECIPES[r].holds)
     return out
 
 
